@@ -32,6 +32,13 @@ class HangDetected(Exception):
     pass
 
 
+class Truncated(Exception):
+    """the run is long but progressing: recording stops, the prefix is validated, no verdict about the rest"""
+
+
+NO_PROGRESS_LIMIT = 1500
+
+
 class Tracer:
     def __init__(self, sim, world, fl, sc):
         self.sim = sim
@@ -411,9 +418,19 @@ class Tracer:
             rec["exc"] = f"{type(exc).__name__}: {exc}"[:300]
         self.recs.append(rec)
         self.cur = None
-        cap = self.world.get("max_recs", MAX_RECS)
-        if len(self.recs) > cap:
+        # a run that stops advancing the clock is a livelock (verdict); a long run that keeps advancing is merely cut
+        now = rec["post"]["now"]
+        if getattr(self, "_last_now", None) != now:
+            self._last_now, self._since_progress = now, 0
+        else:
+            self._since_progress += 1
+        cap = self.world.get("max_recs")
+        if cap is not None and len(self.recs) > cap:
             raise HangDetected(f"more than {cap} loop actions")
+        if self._since_progress > NO_PROGRESS_LIMIT:
+            raise HangDetected(f"more than {NO_PROGRESS_LIMIT} loop actions without clock progress")
+        if len(self.recs) > MAX_RECS:
+            raise Truncated(f"more than {MAX_RECS} loop actions")
 
 
 def _install(tr: Tracer):
@@ -679,6 +696,8 @@ def run_world(world, wall_limit=20):
         sim.simulate()
     except HangDetected as h:
         end["hang"] = str(h)
+    except Truncated as t:
+        end["truncated"] = str(t)
     except Exception as e:  # noqa
         if str(e).startswith("world could not be built"):
             raise
@@ -691,7 +710,7 @@ def run_world(world, wall_limit=20):
             uninstall()
     trace["recs"] = tr.recs if tr else []
     trace["end"] = end
-    if tr is not None and not end["exc"] and not end["hang"]:
+    if tr is not None and not end["exc"] and not end["hang"] and not end.get("truncated"):
         trace["reader"] = run_reader(tr, pre_rows)
     trace["wall_s"] = round(time.time() - t0, 3)
     if tr is not None:
